@@ -40,15 +40,15 @@ def fmt(items) -> str:
 
 
 def run(ctx: Ctx, rep: Report) -> None:
-    rep.rule("C05-R1", "PDU body is [request-id, error-status, error-index, bindings] with zero error defaults", floor=3)
-    rep.rule("C05-R2", "PDU classes carry the RFC 3416 tags (context, constructed); GETBULK framing and constructor agree", floor=12)
-    rep.rule("C05-R3", "community messages are SEQUENCE[version constant, community, PDU]", floor=4)
-    rep.rule("C05-R4", "SNMPv3 message, header, flags, scoped PDU and USM parameters follow RFC 3412 / 3414", floor=14)
+    rep.rule("C05-R1", "PDU body is [request-id, error-status, error-index, bindings] with zero error defaults", floor=2)
+    rep.rule("C05-R2", "PDU classes carry the RFC 3416 tags (context, constructed); GETBULK framing and constructor agree", floor=7)
+    rep.rule("C05-R3", "community messages are SEQUENCE[version constant, community, PDU]", floor=2)
+    rep.rule("C05-R4", "SNMPv3 message, header, flags, scoped PDU and USM parameters follow RFC 3412 / 3414", floor=12)
     rep.rule("C05-R5", "API arguments reach the PDU fields (decided by C07-R1, C02-R3, C04-R1)", floor=1)
-    rep.rule("C05-R6", "msgFlags state the credentials' security level and mark confirmed-class PDUs reportable (shared with C10-R1)", floor=10)
-    rep.rule("C05-R8", "the v3 security parameters emitted carry the discovered authoritative engine id, boots, time and the user name (shared with C10-R2)", floor=5)
-    rep.rule("C05-R9", "v3 requests: encrypt, then splice the digest into otherwise unchanged security parameters; with privacy the scoped PDU travels as the plug-in's ciphertext under the agent-localised key (shared with C10-R3, C11-R1/R2/R4)", floor=8)
-    rep.rule("C05-R7", "the version spoken is that of the current credentials: a change of credential family installs the matching message-processing model (shared with C18-R4)", floor=4)
+    rep.rule("C05-R6", "msgFlags state the credentials' security level and mark confirmed-class PDUs reportable (shared with C10-R1)", floor=5)
+    rep.rule("C05-R8", "the v3 security parameters emitted carry the discovered authoritative engine id, boots, time and the user name (shared with C10-R2)", floor=3)
+    rep.rule("C05-R9", "v3 requests: encrypt, then splice the digest into otherwise unchanged security parameters; with privacy the scoped PDU travels as the plug-in's ciphertext under the agent-localised key (shared with C10-R3, C11-R1/R2/R4)", floor=6)
+    rep.rule("C05-R7", "the version spoken is that of the current credentials: a change of credential family installs the matching message-processing model (shared with C18-R4)", floor=3)
     rep.assumptions += [
         "x690 encodes the primitive types (INTEGER, OCTET STRING, OID, NULL), lengths and SEQUENCE framing correctly over their full ranges (numeric; not analysed here)",
     ]
@@ -215,20 +215,25 @@ def run(ctx: Ctx, rep: Report) -> None:
     # flags
     flags = ctx.u.cls(f"{adt}:V3Flags")
     fb = flags.methods["__bytes__"]
-    rets = [n for n in own_nodes(fb.node) if isinstance(n, ast.Return) and n.value is not None]
-    var = None
-    if len(rets) == 1 and isinstance(rets[0].value, ast.Call) and norm(rets[0].value.func) == "bytes" and isinstance(rets[0].value.args[0], ast.List) and len(rets[0].value.args[0].elts) == 1 and isinstance(rets[0].value.args[0].elts[0], ast.Name):
-        var = rets[0].value.args[0].elts[0].id
-    if var is None:
-        rep.undecided("C05-R4", fb.site(), "flag octet is bytes([<value>])", f"{[norm(r.value) for r in rets]}")
-    else:
-        for auth in (0, 1):
-            for priv in (0, 1):
-                for reportable in (0, 1):
-                    vals = {"self.auth": auth, "self.priv": priv, "self.reportable": reportable}
-                    run_ = run_int_cfg(ctx, fb, {var: 0}, lambda n: None, lambda n, k: None, atoms_extra=lambda e, vals=vals: vals.get(norm(e)))
-                    want_v = auth * rfc.MSGFLAG_AUTH + priv * rfc.MSGFLAG_PRIV + reportable * rfc.MSGFLAG_REPORTABLE
-                    rep.check(run_.end == "return" and run_.state.get(var) == want_v, "C05-R4", fb.site(), f"msgFlags octet for auth={auth} priv={priv} reportable={reportable} is {want_v:#04x}", f"computed {run_.state.get(var)} (run ended '{run_.end}')", key="V3Flags|octet")
+    # the encoder is evaluated for the eight flag combinations (engine/minieval.py): bit arithmetic, a table-driven
+    # loop or a lookup all have to produce the RFC 3412 octet
+    from ..engine.minieval import Instance, MiniEval, Raised, Unevaluable
+
+    for auth in (0, 1):
+        for priv in (0, 1):
+            for reportable in (0, 1):
+                inst = Instance(flags, [], {})
+                inst.attrs.update(auth=bool(auth), priv=bool(priv), reportable=bool(reportable))
+                want_v = auth * rfc.MSGFLAG_AUTH + priv * rfc.MSGFLAG_PRIV + reportable * rfc.MSGFLAG_REPORTABLE
+                text = f"msgFlags octet for auth={auth} priv={priv} reportable={reportable} is {want_v:#04x}"
+                try:
+                    got = MiniEval(ctx).call_function(fb, [inst])
+                except Unevaluable as exc:
+                    rep.undecided("C05-R4", fb.site(), text, f"not evaluable: {exc}")
+                    continue
+                except Raised as exc:
+                    got = f"raises {exc.value!r}"
+                rep.check(got == bytes([want_v]), "C05-R4", fb.site(), text, f"computed {got!r}", key="V3Flags|octet")
     rep.check(dataclass_fields(flags) == ["auth", "priv", "reportable"], "C05-R4", f"{flags.module.path}:{flags.node.lineno} (V3Flags)", "V3Flags fields are declared (auth, priv, reportable): positional constructions rely on it", f"{dataclass_fields(flags)}", key="V3Flags|field-order")
     # V3MPM.encode fills the message
     v3 = mpm_class(ctx, 3)
@@ -266,7 +271,13 @@ def run(ctx: Ctx, rep: Report) -> None:
         detail = f"version={vconst} header={ {k: norm(v) for k, v in hb.items()} } scoped={ {k: norm(v) for k, v in sb.items()} }"
     rep.check(ok, "C05-R4", enc3.site(), "V3MPM.encode: version 3, msgID = request id, msgMaxSize = MESSAGE_MAX_SIZE, security model 3 (USM), scoped PDU = (context engine id, context name, caller's PDU)", detail, key=f"{enc3.key}|message-fill")
     rets = [n for n in own_nodes(enc3.node) if isinstance(n, ast.Return) and n.value is not None]
-    okr = len(rets) == 1 and isinstance(rets[0].value, ast.Call) and rets[0].value.args and norm(d3.expand(rets[0].value.args[0])).startswith("bytes(self.security_model.generate_request_message(")
+    okr = False
+    if len(rets) == 1 and isinstance(rets[0].value, ast.Call) and rets[0].value.args:
+        from .common import is_own_security_model
+
+        emitted = d3.expand(rets[0].value.args[0], stop=[n.id for n in ast.walk(rets[0].value) if isinstance(n, ast.Name) and is_own_security_model(ctx, enc3, n)])
+        inner = emitted.args[0] if isinstance(emitted, ast.Call) and isinstance(emitted.func, ast.Name) and emitted.func.id == "bytes" and emitted.args else None
+        okr = isinstance(inner, ast.Call) and isinstance(inner.func, ast.Attribute) and inner.func.attr == "generate_request_message" and is_own_security_model(ctx, enc3, inner.func.value)
     rep.check(okr, "C05-R4", enc3.site(), "V3MPM.encode emits the bytes of the message secured by the security model", key=f"{enc3.key}|encode-flow")
     try:
         mms = ctx.r.const(enc3.module, ast.Name("MESSAGE_MAX_SIZE", ast.Load()))
